@@ -56,6 +56,48 @@ META = {
 }
 
 
+def _search_helper():
+    """Name of the recursive binary-search generator of dali.sequences (`_find_next` at the pinned commit):
+    the module-level generator function of two positional parameters that calls itself.  Found by shape, not
+    by name, so that a rename does not break the check; the contract it is checked against is that of the
+    docstring above."""
+    import inspect
+    if hasattr(_search_helper, "name"):
+        return _search_helper.name
+    cands = [n for n, f in vars(S).items()
+             if inspect.isgeneratorfunction(f) and getattr(f, "__module__", None) == S.__name__
+             and f.__code__.co_argcount == 2 and n in f.__code__.co_names]
+    if len(cands) != 1:
+        from symx.core import EngineUnsupported
+        raise EngineUnsupported("cannot identify the recursive search helper of dali.sequences (candidates: %r)"
+                                % (cands,))
+    _search_helper.name = cands[0]
+    return cands[0]
+
+
+def _clash_marker():
+    """What the search helper returns for 'several units answered at once' ("clash" at the pinned commit; a
+    refactoring may use a private sentinel): obtained from the real function on the smallest instance -
+    a one-address interval whose COMPARE is answered with a framing error."""
+    if hasattr(_clash_marker, "value"):
+        return _clash_marker.value
+    g = getattr(S, _search_helper())(5, 5)
+    resp, val = None, None
+    try:
+        for _ in range(12):
+            cmd = g.send(resp)
+            resp = cmd.response(F.BackwardFrameError(255)) if cmd.response is not None else None
+    except StopIteration as e:
+        val = e.value
+    _clash_marker.value = val
+    return val
+
+
+def _is_clash(res):
+    m = _clash_marker()
+    return res is m or (isinstance(m, str) and isinstance(res, str) and res == m)
+
+
 # ---------------------------------------------------------------------------------------------
 # (A) _find_next inductive step
 
@@ -68,7 +110,8 @@ def h_find_next(ctx):
     if has_m:
         ctx.assume(E.ge(m, low))          # precondition: no active unit below low
     dup = ctx.fresh_bool("dup") if has_m else False
-    real = S._find_next
+    _clash_marker()         # (from the real helper, before it is replaced)
+    real = getattr(S, _search_helper())
     calls = []
     state = {"search": None}
 
@@ -84,13 +127,13 @@ def h_find_next(ctx):
         calls.append((l2, h2))
         if has_m and bool(E.le(m, h2)):
             if dup:
-                return "clash"
+                return _clash_marker()
             state["search"] = m
             return m
         state["search"] = h2
         return None
         yield
-    S._find_next = stub
+    setattr(S, _search_helper(), stub)
     ncmd = 0
     regs = [None, None, None]
     res, exc = None, None
@@ -134,7 +177,7 @@ def h_find_next(ctx):
     except Exception as e:  # noqa
         exc = e
     finally:
-        S._find_next = real
+        setattr(S, _search_helper(), real)
     if exc is not None:
         ctx.fail("_find_next raised %r" % (exc,), key="findnext/raised")
         return "raised"
@@ -143,11 +186,11 @@ def h_find_next(ctx):
         ctx.prove(res is None, "returned %r although no active address <= high" % (res,), key="findnext/none")
         lab = "none"
     elif dup:
-        ctx.prove(res == "clash", "returned %r although two units share the least address" % (res,),
+        ctx.prove(_is_clash(res), "returned %r although two units share the least address" % (res,),
                   key="findnext/clash")
         lab = "clash"
     else:
-        ok = res is not None and not isinstance(res, str)
+        ok = res is not None and not _is_clash(res) and not isinstance(res, str)
         ctx.prove(ok and E.eq(res, m), "returned %r, least active address differs" % (res,), key="findnext/value")
         if ok:
             ctx.prove(E.eq(state["search"], res), "search-address registers do not hold the returned address",
@@ -209,7 +252,8 @@ def h_commission(ctx, N, readdress, dry_run, which, nostore, stale=None):
             u.random = ctx.fresh("stale_r%d" % i, 0, 0xFFFFFF)
         units.append(u)
     bus = M.Bus(units, max_commands=260)
-    real = S._find_next
+    _clash_marker()         # (from the real helper, before it is replaced)
+    real = getattr(S, _search_helper())
     glue = []
 
     def stub(low, high):
@@ -226,19 +270,20 @@ def h_commission(ctx, N, readdress, dry_run, which, nostore, stale=None):
                 if u.random < mn:
                     mn = u.random
             dup = sum(1 for u in cands if u.random == mn) > 1
-            res, sr = ("clash" if dup else mn), mn
+            res, sr = (_clash_marker() if dup else mn), mn
         if not ctx.symbolic:
             # (C) glue: the real _find_next on the same concrete population
             b2 = M.Bus(units, max_commands=400)
-            S._find_next = real
+            setattr(S, _search_helper(), real)
             try:
                 st, rr = b2.run(real(low, high))
             finally:
-                S._find_next = stub
+                setattr(S, _search_helper(), stub)
             glue.append((st, rr, res, len(b2.commands)))
-            ctx.prove(st == "ok" and rr == res, "contract stub %r differs from the real _find_next %r"
+            ctx.prove(st == "ok" and (rr is res or (not _is_clash(rr) and not _is_clash(res) and rr == res)),
+                      "contract stub %r differs from the real _find_next %r"
                       % (res, rr), key="commission/glue")
-            if res is not None and res != "clash":
+            if res is not None and not _is_clash(res):
                 ctx.prove(all(u.search_addr() == res for u in units),
                           "real _find_next leaves other search registers than the contract", key="commission/glue-regs")
             ctx.prove(len(b2.commands) <= 200, "real _find_next used %d commands" % len(b2.commands),
@@ -248,7 +293,7 @@ def h_commission(ctx, N, readdress, dry_run, which, nostore, stale=None):
         return res
         yield
 
-    S._find_next = stub
+    setattr(S, _search_helper(), stub)
     try:
         gen = S.Commissioning(available_addresses=avail_arg, readdress=readdress, dry_run=dry_run)
         # drive by hand to count RANDOMISE rounds and add the fairness assumption
@@ -285,7 +330,7 @@ def h_commission(ctx, N, readdress, dry_run, which, nostore, stale=None):
         except Exception as e:  # noqa
             st, val = "exc", e
     finally:
-        S._find_next = real
+        setattr(S, _search_helper(), real)
     tag = "commission"
     if st == "nonterminating":
         ctx.fail("more than %d commands" % bus.max_commands, key=tag + "/nonterminating")
